@@ -21,7 +21,9 @@ Oracle (expected values are read from the *file bytes* with struct, never from t
                libs.fad2cname[a] == canon_libname_libfunc(library, function)
 
 Import histories  images with long import tables (mc/pegen.IMPORT_SHAPES: 255/256/257/300/600 functions of one DLL,
-     the big DLL first / in the middle / last, two big DLLs) and an ELF importing 300 functions are loaded and resolved
+     the big DLL first / in the middle / last, two big DLLs; modules whose names share the stem before the first dot
+     - libfoo.1.dll/libfoo.2.dll, winspool.dll/.drv, a.dll!b_c vs a_b.dll!c - importing the same names and ordinals; one
+     module under two spellings) and an ELF importing 300 functions are loaded and resolved
      one after the other against ONE libimp (1..3 images per history). After the last image every slot of every
      image must hold a stub that maps back to exactly its (library, function) through fad2info and fad2cname, and no
      stub address may be held by the slots of two different imports.
@@ -392,6 +394,9 @@ IMPORT_HISTORIES_QUICK = (
     [("pe", "n256"), ("pe", "small2")], [("pe", "n257"), ("pe", "small2")],
     [("pe", "small"), ("pe", "big_first")], [("pe", "big_first"), ("pe", "big_first")],
     [("pe", "two_big"), ("pe", "big_middle")],
+    [("pe", "stem_versioned")], [("pe", "stem_ext")], [("pe", "stem_underscore")], [("pe", "stem_three")],
+    [("pe", "same_case")], [("pe", "same_noext")],
+    [("pe", "stem_versioned"), ("pe", "stem_versioned")], [("pe", "stem_ext"), ("pe", "stem_underscore")],
     [("elf", "many")], [("elf", "many"), ("pe", "small")], [("pe", "small"), ("elf", "many"), ("pe", "small2")],
 )
 
@@ -418,21 +423,37 @@ def _import_image(wsize, shape, base):
 
 
 def history_skeleton(history):
-    """Class of a history for signatures: does a library that overflows its stub region (> 256 imports) exist, and is
-    another library created after it?"""
-    libs = []
+    """Class of a history for signatures: does a library that overflows its stub region (> 256 imports) exist and is
+    another library created after it; do two different libraries share the module stem (name up to the first dot)
+    and a function."""
+    libs = []          # (normalised library name, set of functions) in creation order
     for kind, what in history:
         if kind == "pe":
             for dll, n in pegen.IMPORT_SHAPES[what]:
-                if dll not in [l for l, _ in libs]:
-                    libs.append((dll, n))
+                name = pegen.norm_libname(dll)
+                funcs = set(pegen.shape_funcs(n))
+                for l in libs:
+                    if l[0] == name:
+                        l[1].update(funcs)
+                        break
+                else:
+                    libs.append((name, funcs))
         else:
-            if "xxx" not in [l for l, _ in libs]:
-                libs.append(("xxx", elfcorpus.MANY_IMPORTS + 5))
-    over = [i for i, (_, n) in enumerate(libs) if n > 256]
+            if "xxx.dll" not in [l for l, _ in libs]:
+                libs.append(("xxx.dll", set(range(elfcorpus.MANY_IMPORTS + 5))))
+    over = [i for i, (_, fs) in enumerate(libs) if len(fs) > 256]
     if not over:
-        return "no-library-over-256"
-    return "library-over-256-then-new-library" if over[0] < len(libs) - 1 else "library-over-256-is-last"
+        skel = "no-library-over-256"
+    else:
+        skel = "library-over-256-then-new-library" if over[0] < len(libs) - 1 else "library-over-256-is-last"
+    from miasm.jitter.loader.utils import canon_libname_libfunc
+    canon = {}
+    for name, fs in libs:
+        for f in fs:
+            canon.setdefault(canon_libname_libfunc(name, f), set()).add(name)
+    if any(len(v) > 1 for v in canon.values()):
+        skel += "+modules-with-one-canonical-name"
+    return skel
 
 
 def check_import_history(wsize, history):
@@ -460,7 +481,7 @@ def check_import_history(wsize, history):
                 data, model = _import_image(wsize, what, PE_BASES[idx])
                 pe = vm_load_pe(vm, data, name="img%d" % idx)
                 preload_pe(vm, pe, libs)
-                expected += [(dll.lower(), f, slot, "<") for dll, f, slot in model]
+                expected += [(pegen.norm_libname(dll), f, slot, "<") for dll, f, slot in model]
             else:
                 ent = elfcorpus.get(ELF_MANY[wsize])
                 elf = vm_load_elf(vm, ent["data"], name=what)
@@ -498,7 +519,9 @@ def check_import_history(wsize, history):
             bad("fad2cname-maps-back-to-another-function", "slot %#x imports %s!%r and holds stub %#x, fad2cname says %r"
                 % (slot, lib, f, a, libs.fad2cname.get(a)))
         elif libs.cname2addr.get(libs.fad2cname[a]) != a and not isinstance(f, int):
-            bad("cname2addr-not-inverse", "cname2addr[%r] = %r, the stub is %#x" % (libs.fad2cname[a], libs.cname2addr.get(libs.fad2cname[a]), a))
+            # not part of C44's statement (the canonical name is lossy by construction: module stem + function):
+            # counted, and reported once in the coverage
+            st["cname2addr_not_inverse"] = st.get("cname2addr_not_inverse", 0) + 1
     st["stubs"] = len(stub_of)
     shared = sorted((a, sorted(fs, key=repr)) for a, fs in stub_of.items() if len(fs) > 1)
     if shared:
@@ -599,6 +622,7 @@ def _shard(args):
                 _bump(res["outcomes"], "imports:%s:%s" % (history_skeleton(hist), st["outcome"]))
                 _bump(res["tot"], "import_history_slots", st["slots"])
                 _bump(res["tot"], "import_history_stubs", st["stubs"])
+                _bump(res["tot"], "import_history_cname2addr_not_inverse", st.get("cname2addr_not_inverse", 0))
                 for v in vs:
                     c = res["per_sig"].get(v["sig"], 0)
                     res["per_sig"][v["sig"]] = c + 1
